@@ -72,7 +72,7 @@ static const bool AVOID_FLAG_INTRINSIC  = false || avoidEnv("intrinsic"); // Opt
 // st_minimize_P4 (O(npadir^2) each). Measured: 110 s user time in the release build, 12.5 min under ASan for
 // 2 variables x 3 structures x 4 directions; also seen with 1 variable x 2 structures. The generator therefore
 // draws maxiter <= 30 for that class so that the class is still exercised within the case budget.
-static const int CONSTSILL_MAXITER = 30;
+static const int CONSTSILL_MAXITER = getenv("C17_CONSTSILL_MAXITER") ? atoi(getenv("C17_CONSTSILL_MAXITER")) : 30;
 
 // ------------------------------------------------------------------------------------------------
 // structure catalogue (what the library itself says about each type, asked once through the public API)
@@ -478,6 +478,9 @@ static void drawTypes(Rng& r, Cfg& g)
   {
     g.types[r.irange(0, (int)g.types.size() - 1)] = r.pick(exotic);
     g.consClass = "none";
+    // these fits work on NaN values and never converge: with the default maxiter = 1000 a single multivariate case cost
+    // 295 CPU seconds; the class is kept but with a small iteration budget
+    g.maxiter = std::min(g.maxiter, 30);
   }
 }
 static bool hasExotic(const Cfg& g)
@@ -952,7 +955,20 @@ static void useModel(Rng& r, Ctx& c, const Cfg& g, Model* m)
   bool okw = m->dumpToNF("c17_model.nf");
   c.truth("nf-write", "C17:nf:dumpToNF-failed:" + cls, okw, "");
   if (!okw) return;
-  std::unique_ptr<Model> m2(Model::createFromNF("c17_model.nf", false));
+  std::unique_ptr<Model> m2;
+  try
+  {
+    m2.reset(Model::createFromNF("c17_model.nf", false));
+  }
+  catch (const std::exception& e)
+  {
+    std::string what = e.what();
+    size_t at = what.find(": ");
+    if (what.rfind("/", 0) == 0 && at != std::string::npos) what = what.substr(at + 2);
+    for (auto& ch : what) if (ch == ' ' || ch == ':') ch = '-';
+    c.check("nf-read", "C17:nf:createFromNF-throws:" + what.substr(0, 48), false, 1, 0, std::string(e.what()).substr(0, 160) + " types " + typesKey(g));
+    return;
+  }
   c.truth("nf-read", "C17:nf:createFromNF-failed:" + cls + (hasExotic(g) ? ":exotic-type" : ""), m2 != nullptr, "types " + typesKey(g));
   if (!m2) return;
   bool same = m2->getCovaNumber() == m->getCovaNumber() && m2->getVariableNumber() == m->getVariableNumber() &&
@@ -1018,7 +1034,20 @@ static void useModel(Rng& r, Ctx& c, const Cfg& g, Model* m)
   }
   std::unique_ptr<NeighUnique> neigh(NeighUnique::create());
   int ncol0 = dbout->getColumnNumber();
-  int err   = kriging(dbin.get(), dbout.get(), m2.get(), neigh.get());
+  int err   = 0;
+  try
+  {
+    err = kriging(dbin.get(), dbout.get(), m2.get(), neigh.get());
+  }
+  catch (const std::exception& e)
+  {
+    std::string what = e.what();
+    size_t at = what.find(": ");
+    if (what.rfind("/", 0) == 0 && at != std::string::npos) what = what.substr(at + 2);
+    for (auto& ch : what) if (ch == ' ' || ch == ':') ch = '-';
+    c.check("kriging-runs", "C17:kriging:throws:" + what.substr(0, 48), false, 1, 0, std::string(e.what()).substr(0, 160) + " types " + typesKey(g));
+    return;
+  }
   std::string kk = cls + (hasExotic(g) ? ":exotic-type" : "");
   if (tot == 0 || !std::isfinite(tot))
   {
